@@ -110,6 +110,14 @@ CLAIMED["C10"] = ("Partial proof at the protocol-glue level, over ASSUMED abstra
  "Trusted: internal/sm9/bn256 group and pairing operations (ghost-valued contracts), internal/bigmod, hash (H1/H2), GenerateUserPublicKey, master-key ScalarBaseMult, cryptobyte, EncrypterOpts interface contracts.",
  "DESIGN.md §0.2, §4 C10")
 
+CLAIMED["C08"] = ("Partial proof of the SM2 key-agreement glue in sm2/sm2_keyexchange.go over ASSUMED integer and curve arithmetic (ghost values of big.Int; ECMUL/ECADD/ECBASE and bitwise AND uninterpreted): "
+ "avf computes x~ = 2^w + (x & (2^w - 1)); mqv computes t = (d + x~_own * r) mod n and V = [t](P_peer + [x~_peer] R_peer) from exactly those operands; the peer's ephemeral point is stored and used only after the "
+ "on-curve check (the scalar multiplication's precondition); own ephemeral point = [r]G; failure when V is the point at infinity; the shared key is KDF(xV || yV || Z_initiator || Z_responder) of the configured length "
+ "for both roles (byte-level layout of the KDF input proved through the appends); a key is returned only after the optional confirmation value compared equal in constant time. "
+ "Not decided: that both parties derive the same V (group algebra), the ecdh package's second implementation and their agreement, the confirmation hash layout (sign is a frame-only assumption), ZA computation.",
+ "Trusted: math/big and crypto/elliptic ghost-valued contracts, (*KeyExchange).sign, sm3.Kdf length contract, bigIntToBytes/FillBytes value contract.",
+ "DESIGN.md §0.2, §4 C08")
+
 NOT_APPLICABLE = {
  "C02": "Not reached by the contract technique in this build: the SM4 round function (S-box tables, 32-bit rotations, XOR network) needs the bit-vector mode of the verifier, which exists only as a skeleton; the AES-NI/AVX assembly tiers are outside any Go-level contract. The Go wrappers around the SM4 assembly that cipher modes use are covered under C03. No other technique was substituted.",
  "C04": "GCM/CCM: table-driven GHASH and the fused SM4-GCM assembly need bit-vector reasoning over carry-less multiplication that the arith-mode VC generator cannot express; CCM's Go glue was planned but not reached in this build.",
